@@ -29,6 +29,24 @@ CLAIMS = {
         "Modelled: str.startswith/lstrip/index/set semantics; numpy fancy indexing.",
         "DESIGN.md §5 C10",
     ),
+    "C11": (
+        "Lean theorems over ALL operation histories (induction over List Op through the invariant Inv: _atcorenums stored "
+        "=> _charge not stored, all per-atom arrays of one length): charge = sum(atcorenums) - nelec whenever both are "
+        "known (independent and read-after-read forms); successful charge/nelec/spinpol assignments read back exactly; "
+        "they never change what atcorenums reads; with orbitals nelec/spinpol are the orbitals' and assigning them is a "
+        "TypeError no-op; natom agrees with every array (chain order irrelevant); wrong lengths are rejected; a raising "
+        "assignment or construction leaves every observable unchanged; reads are idempotent and never raise. The clause "
+        "'core charges default to the atomic numbers until set explicitly' is proved only for histories that do not "
+        "re-assign atnums (core_default_partial); its negation is proved at a replayed witness (core_default_violated, "
+        "known finding C11-core-default-stale). Model tied to iodata.py by an operation-sequence correspondence "
+        "(exhaustive to depth 3/4 + random, all observables after every op), ast-extracted names/orders, and a direct "
+        "search of the property predicates on real objects.",
+        "Lean 4 proof (invariant + induction over histories, decide +kernel for witnesses and generated name tables) "
+        "+ model-vs-code correspondence over operation sequences",
+        "Modelled: attrs converter/validator semantics on __init__ and assignment; per-atom arrays by one scalar per atom; "
+        "orbitals seen through mo.nelec/mo.spinpol; doubles exact on the dyadic alphabet (the theorems are over Q).",
+        "DESIGN.md §5 C11, Appendix A.1",
+    ),
 }
 
 NOT_YET = {}
